@@ -276,7 +276,12 @@ class Vector():
 		if self._fp is None:
 			if self._fp_powers is None or len(self._fp_powers) != len(self._underlying):
 				self._ensure_fp_powers()
-			self._fp = self._compute_fingerprint_full()
+			fp = self._compute_fingerprint_full()
+			if any(isinstance(x, Vector) for x in self._underlying):
+				# A vector of vectors is not told when one of its elements is written
+				# to (same reason Table.fingerprint keeps no memo): do not cache
+				return fp
+			self._fp = fp
 		return self._fp
 
 	def _invalidate_fp(self) -> None:
